@@ -30,6 +30,7 @@ from abc import ABC, abstractmethod
 from dataclasses import dataclass
 from functools import reduce, lru_cache, cache
 from typing import (
+    FrozenSet,
     Union,
     List,
     Optional,
@@ -3242,6 +3243,7 @@ class ISLaEmitter(IslaLanguageListener.IslaLanguageListener):
 
         self.vars_for_free_nonterminals: Dict[str, BoundVariable] = {}
         self.shadowed_free_nonterminal_vars: List[Optional[BoundVariable]] = []
+        self.xpath_exprs_outside_unnamed_qfr: List[FrozenSet[ParsedXPathExpr]] = []
         self.vars_for_xpath_expressions: Dict[ParsedXPathExpr, BoundVariable] = {}
 
     def parse_mexpr(self, inp: str, mgr: VariableManager) -> BindExpression:
@@ -3715,6 +3717,10 @@ class ISLaEmitter(IslaLanguageListener.IslaLanguageListener):
                     [shadowed.name]
                 )
             self.shadowed_free_nonterminal_vars.append(shadowed)
+            # XPath expressions registered so far are not in the scope of this quantifier.
+            self.xpath_exprs_outside_unnamed_qfr.append(
+                frozenset(self.vars_for_xpath_expressions.keys())
+            )
             self.register_var_for_free_nonterminal(var_type)
 
     def enterForall(self, ctx: IslaLanguageParser.ForallContext):
@@ -3764,9 +3770,11 @@ class ISLaEmitter(IslaLanguageListener.IslaLanguageListener):
             shadowed = self.shadowed_free_nonterminal_vars.pop()
             if shadowed is not None:
                 self.vars_for_free_nonterminals[var_type] = shadowed
-            # ... and the XPath expressions map.
+            # ... and the XPath expressions map (only for expressions inside this
+            # quantifier).
+            outside = self.xpath_exprs_outside_unnamed_qfr.pop()
             for segments, final_var in list(self.vars_for_xpath_expressions.items()):
-                if segments[0][0][0] == var_type:
+                if segments[0][0][0] == var_type and segments not in outside:
                     del self.vars_for_xpath_expressions[segments]
                     new_segments = list_set(
                         segments, 0, list_set(segments[0], 0, (var.name, 0))
